@@ -464,7 +464,9 @@ class ParserFunctions:
     def IFEXIST(self, args):
         name = args[0]
         if not name or not self.wikidb:
-            return args.get(args[2], "")
+            # an empty title never exists: the result is the "else" argument itself (not a named
+            # argument called like its value, which made {{#ifexist:|yes|no}} expand to nothing)
+            return args[2]
 
         nsnum, _, _ = self.nshandler.splitname(name)
         if nsnum == -2:
